@@ -47,4 +47,33 @@ def monoMatchesComp (M : MassTable) (e : Entry) : Bool :=
     | .error _ => false
   | _, _ => false
 
+
+/-- two parsed compositions are the same dict (keys of each are unique) -/
+def sameComp (c d : Comp) : Bool :=
+  c.length == d.length && c.all (fun kv => d.get? kv.1 == some kv.2)
+
+/-- a name carried by both vocabularies means the same: mono mass within 1e-5, same composition -/
+def collisionOK (U P : List Entry) (n : Str) : Bool :=
+  match byName U n, byName P n with
+  | some u, some p =>
+    (match u.mono, p.mono with
+     | some a, some b => decide (absRat (a.toRat - b.toRat) ≤ 1 / 100000)
+     | _, _ => false) &&
+    (match u.comp, p.comp with
+     | some f, some g =>
+       (match parseChem f [], parseChem g [] with
+        | .ok c, .ok d => sameComp c d
+        | _, _ => false)
+     | _, _ => false)
+  | _, _ => false
+
+/-- the average masses of a colliding pair agree within 1e-5 (false today) -/
+def collisionAvgOK (U P : List Entry) (n : Str) : Bool :=
+  match byName U n, byName P n with
+  | some u, some p =>
+    (match u.avg, p.avg with
+     | some a, some b => decide (absRat (a.toRat - b.toRat) ≤ 1 / 100000)
+     | _, _ => false)
+  | _, _ => false
+
 end ModDb
